@@ -1,6 +1,7 @@
 import TracklibVerif.Lemmas.GraphTable
 import TracklibVerif.Lemmas.GraphPD
 import TracklibVerif.Lemmas.GraphSessionQ
+import TracklibVerif.Lemmas.GraphR4
 import Mathlib.Algebra.Order.Group.Int
 /-! # C06 — network shortest distances are the true minimum over permitted walks
 
@@ -12,17 +13,21 @@ non-negative (`WFNet`); there is no bound on the size of the network. `Walk net 
 traversed in a direction its orientation permits (`≥ 0`: source→target, `≤ 0`: target→source), of total
 weight `c`; `IsDist net s v y` says `y` is the minimum of those weights; the sentinel `-1` is `none`.
 
-**Float weights.** The theorems use of `+` and `≤` only: `≤` is a linear order, `a + 0 = a`, `0 ≤ w → a ≤ a + w` and
-`a ≤ b → a + w ≤ b + w` — no associativity, commutativity or cancellation is used, because both the code and `Walk`
-add the weights of a walk from the source outwards (`(((0 + w₁) + w₂) + …)`). IEEE-754 round-to-nearest addition on
-the non-NaN doubles has those four properties, so for float weights the code computes the minimum over walks of the
-*left-to-right rounded* sum. What IEEE addition lacks is associativity: that minimum need not be the rounding of the
-exact minimum, nor be attained by the exactly-shortest walk, and the distance `s → t` need not equal the distance
-`t → s` in a symmetric network. The classes below (`AddCommMonoid`, `IsOrderedAddMonoid`) are the Mathlib names that
-provide the four facts; the float stream of the harness compares with exact rational distances at 1e-9 relative. -/
+**Weights, and float weights.** The theorems are stated for any `W` with a linear order, a `0` and a `+` such that
+`0 ≤ w → a ≤ a + w` and `a ≤ b → a + w ≤ b + w` (class `WalkAdd`, `Lemmas/Graph.lean`). Nothing else is used — no
+associativity, commutativity, cancellation, not even `a + 0 = a` — because the code and `Walk` both add the weights of a
+walk from the source outwards (`((0 + w₁) + w₂) + …`). Every linearly ordered additive commutative (in particular every
+cancellative) monoid is an instance (`instWalkAddOfMonoid`: `ℕ ℤ ℚ ℝ` …). IEEE-754 round-to-nearest addition on the
+non-NaN doubles also has the two properties (rounding is monotone), so for float weights the code computes the minimum
+over walks of the *left-to-right rounded* sum — that is what the theorems say at such an instance. What IEEE addition
+lacks is associativity (and cancellation): that minimum need not be the rounding of the exact minimum, need not be
+attained by the exactly-shortest walk, and `dist s t` need not equal `dist t s` in a symmetric network; `R4` at the
+end of this file is a small non-associative instance on which the theorems apply. Lean's `Float` is opaque, so the
+instance for doubles is not constructed; the float stream of the harness compares with exact rational distances at
+1e-9 relative. NaN and negative weights are outside the property. -/
 namespace TV.C06
 open TV.Graph
-variable {W : Type} [AddCommMonoid W] [LinearOrder W] [IsOrderedAddMonoid W]
+variable {W : Type} [LinearOrder W] [Add W] [Zero W] [WalkAdd W]
 
 /-- T2 (`forward_invariant`): the loop invariants of appendix A.2 (source labelled 0; settled nodes' arcs relaxed;
 every label is the weight of a walk; settled labels ≤ unsettled labels; settled nodes labelled; labels are of
@@ -341,5 +346,25 @@ example : (runOps (Sess.new 3) demoOps).map (fun o => match o with | .val d => d
     = [none, some 2, none, none, some 1, none, some 0, none, none] := by decide +kernel
 example : (runOps (Sess.new 3) demoOps).map (fun o => match o with | .subnet ns es => (ns, es) | _ => ([], []))
     = [([], []), ([], []), ([], []), ([], []), ([], []), ([], []), ([], []), ([], []), ([0, 2], [1])] := by decide +kernel
+
+
+/-! ### a non-associative weight structure (`R4`, `Lemmas/GraphR4.lean`: a caricature of floating point) on which all of the above holds -/
+
+/-- the addition is not associative … -/
+example : (R4.of 1 + R4.of 2) + R4.of 4 ≠ R4.of 1 + (R4.of 2 + R4.of 4) := by decide
+/-- … and the theorems apply: on the path 0 –1– 1 –2– 2 –4– 3 the reported distance is the left-to-right rounded sum 8,
+which is the minimum over walks of that sum (`shortest_distance_correct`), not the rounding of 1 + (2 + 4) -/
+def demoR : Net R4 :=
+  { n := 4, edges := [⟨0, 0, 1, R4.of 1, 0⟩, ⟨1, 1, 2, R4.of 2, 0⟩, ⟨2, 2, 3, R4.of 4, 0⟩] }
+example : WFNet demoR := by
+  intro e he
+  simp only [demoR, List.mem_cons, List.not_mem_nil, or_false] at he
+  rcases he with rfl | rfl | rfl <;> exact ⟨by decide, by decide, Nat.zero_le _⟩
+example : shortestDistance demoR 0 3 none = some (R4.of 8) := by decide +kernel
+example : IsDist demoR 0 3 (R4.of 8) :=
+  ((shortest_distance_correct demoR (by
+    intro e he
+    simp only [demoR, List.mem_cons, List.not_mem_nil, or_false] at he
+    rcases he with rfl | rfl | rfl <;> exact ⟨by decide, by decide, Nat.zero_le _⟩) 0 3 (by decide)).1 _).1 (by decide +kernel)
 
 end TV.C06
